@@ -17,14 +17,14 @@ Matches(r) == /\ live' = {o \in Ids : r.live[o]}
 Consumed == PrintT(<<"OK", l>>)
 Ev(e) == l <= Len(TLog) /\ TLog[l].op = e /\ l' = l + 1
 Outcome(r) == hist'[Len(hist')].act[5] = r.outcome
-Void == objs = [o \in Ids |-> Dead] /\ live = {} /\ hist = <<>>
+Void == objs = [o \in Ids |-> Dead(o)] /\ live = {} /\ hist = <<>>
 TInit == l = 1 /\ Void
 TNew == /\ Ev("new")
         /\ LET r == TLog[l]
                ok == CtorOK(r.n, r.mins, r.maxs, r.defaults, r.chk, r.chkb, r.nanok)
            IN /\ (r.outcome = "ok") <=> ok
               /\ objs' = [o \in Ids |-> IF o = 1 /\ ok
-                            THEN Mk(r.n, r.mins, r.maxs, r.defaults, r.chk, r.chkb, r.nanok) ELSE Dead]
+                            THEN Mk(r.n, r.mins, r.maxs, r.defaults, r.chk, r.chkb, r.nanok) ELSE Dead(o)]
               /\ live' = IF ok THEN {1} ELSE {}
               /\ hist' = <<[act |-> <<"new">>]>>
               /\ (ok => Matches(r))
@@ -37,7 +37,7 @@ TReset == Ev("reset") /\ LET r == TLog[l] IN Reset(r.o) /\ Outcome(r) /\ Matches
 TClone == \E how \in {"clone", "dict"} :
               Ev(how) /\ LET r == TLog[l] IN Clone(r.o, how) /\ Outcome(r) /\ Matches(r) /\ Consumed
 TJump == /\ l <= Len(TLog) /\ TLog[l].op # "new"
-         /\ l' = TLog[l].nextnew /\ objs' = [o \in Ids |-> Dead] /\ live' = {} /\ hist' = <<>>
+         /\ l' = TLog[l].nextnew /\ objs' = [o \in Ids |-> Dead(o)] /\ live' = {} /\ hist' = <<>>
 TNext == TNew \/ TSetAttr \/ TBadKey \/ TSetAll \/ TReset \/ TClone \/ TJump
 \* the contract is evaluated on every step of every recorded history
 TInBounds == InBounds
